@@ -158,20 +158,32 @@ def r_numeric_writers(chk, P, tier):
         ok = not bad and (name != "Timestamp" or used >= {"date", "time"})
         chk.expect(ok, name, "Numeric::%s is rendered from %s; defaulted (not pattern-bound) parts: %s" % (name, sorted(used), sorted(set(bad))), loc=P.loc("format::formatting::DelayedFormat::<I>::format_numeric"))
     # explicit sign exactly for years outside 0..=9999 (write_year)
-    chk.rule("BOX.year_sign", "write_year forces a sign exactly for years outside 0..=9999 and uses the 4-digit fast path for 1000..=9999", floor=2)
+    chk.rule("BOX.year_sign", "write_year forces a sign exactly for years outside 0..=9999 and uses the 4-digit fast path (two digit pairs) exactly for 1000..=9999", floor=12)
     fn = "format::formatting::DelayedFormat::<I>::format_numeric::write_year"
-    rngs = []
-    for p in Sym(P, fn).paths():
-        for t in [c[1] for c in p.conds] + ([p.ret] if p.ret else []):
-            for x in walk_terms(t):
-                if x[0] == "call" and isinstance(x[1], str) and x[1].endswith("::contains") and "Range" in x[1]:
-                    r = const_of(unref(x[2][0]))
-                    if isinstance(r, tuple):
-                        fs = dict(dict(r).get("fields", ()))
-                        rngs.append((fs.get("start"), fs.get("end"), "Inclusive" in x[1]))
-    rngs = sorted(set(rngs))
-    chk.expect((0, 10000, False) in rngs or (0, 9999, True) in rngs, "sign range", "write_year's sign rule uses ranges %s, expected 0..10_000" % rngs, loc=P.loc(fn))
-    chk.expect((1000, 9999, True) in rngs or (1000, 10000, False) in rngs, "fast path", "write_year's fast path uses ranges %s, expected 1000..=9999" % rngs, loc=P.loc(fn))
+    from finmap import Folder, show, Unknown
+    log = []
+    OKU = ("agg", "adt", "std::result::Result", "Ok", (("agg", "tuple", None, None, (), None),), 0)
+
+    def eff(name, args):
+        log.append((name.split("::")[-1], args))
+        return OKU
+    fo = Folder(P, max_depth=6, effects=eff, effects_names=lambda n: n.endswith("::write_n") or n.endswith("formatting::write_hundreds"))
+    pad0 = ("agg", "adt", "format::Pad", P.adts["format::Pad"]["variants"][1]["name"], (), 1)
+    for y in (-(2**31), -10000, -1, 0, 1, 999, 1000, 1001, 9998, 9999, 10000, 2**31 - 1):
+        del log[:]
+        try:
+            fo._memo.clear()
+            fo.call(fn, [("ref", ("const", "w")), ("const", y), pad0])
+            got = [(n, tuple(show(a) for a in args[1:])) for n, args in log]
+        except Unknown as e:
+            got = "unknown: %s" % e
+        if 1000 <= y <= 9999:
+            want = [("write_hundreds", (y // 100,)), ("write_hundreds", (y % 100,))]
+            ok = got == want
+        else:
+            ok = isinstance(got, list) and len(got) == 1 and got[0][0] == "write_n" and got[0][1][0] == 4 and got[0][1][1] == y and got[0][1][-1] == (not 0 <= y <= 9999)
+            want = "write_n(w, 4, %d, pad, always_sign=%s)" % (y, not 0 <= y <= 9999)
+        chk.expect(ok, "year %d" % y, "write_year(%d) performs %s, expected %s" % (y, got, want), loc=P.loc(fn))
 
 
 def r_wallclock(chk, P, tier):
